@@ -990,7 +990,10 @@ def _roll(a, shifts, dims=None):
 
 @H("diagonal")
 def _diagonal(a, offset=0, dim1=0, dim2=1):
-    return _view(a, np.diagonal(a._arr, offset, dim1, dim2))
+    v = np.diagonal(a._arr, offset, dim1, dim2)
+    if a._arr.flags.writeable:
+        v.flags.writeable = True        # torch's diagonal is an ordinary (writable) view; numpy marks its own read-only
+    return _view(a, v)
 
 
 @H("diag")
